@@ -12,9 +12,9 @@ def parseUnit (ws : List String) : Option DUnit :=
   match ws with
   | k :: rest =>
     match kindOf k, rest.mapM (·.toNat?) with
-    | some .seqHdr, some [code, len, next, prev, hid, mv, prof] =>
+    | some .seqHdr, some [code, len, next, prev, hid, mv, prof, hpcm] =>
       some { kind := .seqHdr, code := code, len := len, next := next, prev := prev, hdrId := hid,
-             majorVersion := mv, profile := prof }
+             majorVersion := mv, profile := prof, pcm := hpcm }
     | some kind, some [code, len, next, prev, a, b, c, d] =>
       some { kind := kind, code := code, len := len, next := next, prev := prev, picNum := a,
              sliceCount := b, fx := c, fy := d }
@@ -33,11 +33,11 @@ def handleVd (ws : List String) : String :=
   match hd with
   | _hq :: pcm :: sx :: sy :: pat =>
     match pcm.toNat?, sx.toNat?, sy.toNat?, (parseRegex (pat.map tokOf)).toOption with
-    | some pcm, some sx, some sy, some ast =>
+    | some _pcm, some sx, some sy, some ast =>
       let units := (splitOnTok (tl.drop 1) ";").filter (fun u => u != ["/"] && !u.isEmpty)
       match units.mapM (fun u => parseUnit (u.filter (· != "/"))) with
       | some us =>
-        let (v, pics) := validate { pcm := pcm, slicesX := sx, slicesY := sy, levelPattern := ast } us
+        let (v, pics) := validate { slicesX := sx, slicesY := sy, levelPattern := ast } us
         showVerdict v ++ " pics=" ++ ",".intercalate (pics.map toString)
       | none => "bad-op"
     | _, _, _, _ => "bad-op"
